@@ -39,6 +39,8 @@ def import_panoptica():
     import multiprocessing.context
 
     seams.install_threading_seam("panoptica")
+    MODS.setdefault("real_mp_lock", multiprocessing.Lock)
+    MODS.setdefault("real_ctx_lock", multiprocessing.context.BaseContext.Lock)
     multiprocessing.Lock = seams.sim_lock_factory
     multiprocessing.context.BaseContext.Lock = lambda self: seams.SimLock()
     devnull = open(os.devnull, "w")
@@ -118,6 +120,7 @@ def install():
     import multiprocessing.pool
 
     real_pool = (multiprocessing.Pool, multiprocessing.pool.Pool)
+    MODS["real_pool"] = multiprocessing.Pool
     rebound = []
     for name, mod in sorted(sys.modules.items()):
         if mod is None or not (name == "panoptica" or name.startswith("panoptica.")):
